@@ -84,6 +84,12 @@ def match_triple(rows, angle):
 def check_site(ck, name, spec, basic, entry=None, voltage=None):
     repo = ck.repo
     fn = repo.fn(entry or name, module=spec["module"])
+    from ..rules import ANALYSED
+    ANALYSED[fn.qual] = fn.module            # evaluated by sa/sites_eval.py: part of what the thorough tier mutates
+    for q, lst in repo.funcs.items():
+        for x in lst:
+            if x.module == fn.module and x.qual != fn.qual and (x.parent is not None or x.cls is None) and not q.startswith("Caltech"):
+                ANALYSED.setdefault(x.qual, x.module)   # helpers of the site module (nested transformer / panel builders)
     params = fn.params
     caps = [p for p in params if p not in NON_CAP]
     if not caps:
